@@ -133,6 +133,8 @@ struct Ctx {
     got: RefCell<Vec<[u64; 2]>>,
     complete: RefCell<Vec<[bool; 2]>>,
     dgrams_ok: Cell<[u64; 2]>,
+    /// datagram indices received per side, over all readers of that side
+    dgram_seen: RefCell<[std::collections::HashSet<usize>; 2]>,
     closed_seen: Cell<bool>,
     /// probe streams opened / taken up by the peer's accept loop
     probe_streams: Cell<[u32; 2]>,
@@ -572,28 +574,46 @@ fn dgram_sender(ctx: Rc<Ctx>, side: usize) -> ActorFut {
     Box::pin(async move {
         let conn = ctx.conn(side);
         let max = conn.max_datagram_size().unwrap_or(0);
+        let group = ctx.case.dgram_burst[side].max(1) as usize;
         for (j, raw) in ctx.case.dgrams[side].iter().enumerate() {
-            let len = dgram_len(*raw).min(max.saturating_sub(8));
+            let mut len = dgram_len(*raw).min(max.saturating_sub(8));
+            if group > 1 {
+                // small enough for a whole group to travel in one packet
+                len = len.min(4 + (*raw as usize % 150));
+            }
             if len < 4 {
                 continue;
             }
             let d = Bytes::from(datagram(side, j, len));
-            match conn.send_datagram_wait(d).await {
+            let r = if group > 1 { conn.send_datagram(d) } else { conn.send_datagram_wait(d).await };
+            match r {
                 Ok(()) => {}
                 Err(compio_quic::SendDatagramError::ConnectionLost(e)) => return End::ConnErr(family(&e)),
-                Err(e) => return End::Bad("datagram/send-error".into(), format!("send_datagram_wait({len} bytes, max {max}): {e}")),
+                Err(e) => return End::Bad("datagram/send-error".into(), format!("send_datagram({len} bytes, max {max}): {e}")),
             }
-            yield_now().await;
+            if (j + 1) % group == 0 {
+                // let the group leave before the next one is queued
+                if NO_PACE.with(|c| c.get()) {
+                    yield_now().await;
+                } else {
+                    let mut sleep = std::pin::pin!(compio_runtime::time::sleep(Duration::from_micros(400)));
+                    std::future::poll_fn(|cx| if NO_PACE.with(|c| c.get()) { Poll::Ready(()) } else { sleep.as_mut().poll(cx) }).await;
+                }
+            }
         }
         End::Done
     })
 }
 
-fn dgram_receiver(ctx: Rc<Ctx>, side: usize) -> ActorFut {
+/// `quota` datagrams, then the reader ends; 0 = until the connection closes
+fn dgram_receiver(ctx: Rc<Ctx>, side: usize, quota: u8) -> ActorFut {
     Box::pin(async move {
         let conn = ctx.conn(side);
-        let mut seen = std::collections::HashSet::new();
+        let mut taken = 0u32;
         loop {
+            if quota > 0 && taken >= quota as u32 {
+                return End::Done;
+            }
             match conn.recv_datagram().await {
                 Ok(d) => {
                     // [sender side, index lo, index hi, len check] + position coded body
@@ -608,7 +628,8 @@ fn dgram_receiver(ctx: Rc<Ctx>, side: usize) -> ActorFut {
                     if datagram(sender, j, d.len()) != d[..] {
                         return End::Bad("datagram/corrupt".into(), format!("datagram #{j} ({} bytes) differs from what was sent", d.len()));
                     }
-                    if !seen.insert(j) {
+                    taken += 1;
+                    if !ctx.dgram_seen.borrow_mut()[side].insert(j) {
                         return End::Bad("datagram/duplicate".into(), format!("datagram #{j} delivered twice"));
                     }
                     let mut c = ctx.dgrams_ok.get();
@@ -830,6 +851,7 @@ async fn run_case(case: QCase, pems: &Pems) -> Verdict {
         got: RefCell::new(vec![[0; 2]; n]),
         complete: RefCell::new(vec![[false; 2]; n]),
         dgrams_ok: Cell::new([0; 2]),
+        dgram_seen: RefCell::new([Default::default(), Default::default()]),
         closed_seen: Cell::new(false),
         probe_streams: Cell::new([0; 2]),
         main: main.clone(),
@@ -865,12 +887,19 @@ async fn run_case(case: QCase, pems: &Pems) -> Verdict {
     for side in 0..2 {
         add(&mut actors, format!("{}:accept_uni", SIDES[side]), side, mk(Kind::Accept), accept_loop(ctx.clone(), side, false));
         add(&mut actors, format!("{}:accept_bi", SIDES[side]), side, mk(Kind::Accept), accept_loop(ctx.clone(), side, true));
-        add(&mut actors, format!("{}:recv_datagram", SIDES[side]), side, mk(Kind::RecvDatagram), dgram_receiver(ctx.clone(), side));
+        let q0 = case.dgram_readers[side].first().copied().unwrap_or(0);
+        add(&mut actors, format!("{}:recv_datagram#0(quota {q0})", SIDES[side]), side, mk(Kind::RecvDatagram), dgram_receiver(ctx.clone(), side, q0));
         let k = mk(Kind::Closed);
         let f = probe(ctx.clone(), side, Probe::Closed, k.clone()).unwrap();
         add(&mut actors, format!("{}:closed", SIDES[side]), side, k, f);
     }
     let watcher = [3usize, 7usize]; // indices of the two closed() watchers above
+    // further datagram readers, every one its own actor = its own waker
+    for side in 0..2 {
+        for (r, q) in case.dgram_readers[side].iter().enumerate().skip(1) {
+            add(&mut actors, format!("{}:recv_datagram#{r}(quota {q})", SIDES[side]), side, mk(Kind::RecvDatagram), dgram_receiver(ctx.clone(), side, *q));
+        }
+    }
     let transfer_start = actors.len();
     for (i, s) in case.streams.iter().enumerate() {
         let side = if s.by_client { 0 } else { 1 };
@@ -1017,6 +1046,28 @@ async fn run_case(case: QCase, pems: &Pems) -> Verdict {
                         progressed |= grace_flag.set.load(Ordering::SeqCst);
                     }
                     if ps[0] == ps[1] || grace_done {
+                        // rescue rule for datagram readers: every flagged actor has just been polled, so a reader
+                        // that is pending *and not woken* implies an empty receive queue.  One redundant poll of
+                        // each: a reader that now gets a datagram was left asleep with a datagram queued.
+                        let mut stranded = vec![];
+                        for a in actors.iter_mut().filter(|a| a.fut.is_some() && a.kind.get() == Kind::RecvDatagram && !a.flag.set.load(Ordering::SeqCst)) {
+                            let before = ctx.dgrams_ok.get()[a.side];
+                            let w = Waker::from(a.flag.clone());
+                            if let Poll::Ready(e) = poll_actor(a, &mut Context::from_waker(&w)) {
+                                a.fut = None;
+                                a.end = Some(e);
+                            }
+                            if ctx.dgrams_ok.get()[a.side] != before {
+                                stranded.push(a.name.clone());
+                            }
+                        }
+                        if !stranded.is_empty() {
+                            failure = Some((
+                                "C16/datagram/reader-not-woken-with-datagram-queued".into(),
+                                format!("{} pending in recv_datagram() without a wake-up although a datagram was queued (it received one on a redundant poll)", stranded.join(", ")),
+                            ));
+                            return Poll::Ready(());
+                        }
                         pending_at_close = actors.iter().filter(|a| a.fut.is_some() && a.polls > 0).map(|a| a.kind.get()).collect();
                         match case.close.what {
                             What::Connection => ctx.conn(closer).close(VarInt::from_u32(code), b"c16"),
@@ -1207,6 +1258,12 @@ async fn run_case(case: QCase, pems: &Pems) -> Verdict {
                 let d = ctx.dgrams_ok.get();
                 if d[0] + d[1] > 0 {
                     labels.push("datagrams-delivered".into());
+                }
+                for side in 0..2 {
+                    if case.dgram_readers[side].len() >= 2 && case.dgram_burst[1 - side] >= 2 && case.dgrams[1 - side].len() >= 2 {
+                        labels.push("datagram-burst-to>=2-readers".into());
+                        break;
+                    }
                 }
                 let stream_kinds = kinds.iter().filter(|k| !matches!(k, Kind::Accept | Kind::RecvDatagram | Kind::Closed)).count();
                 let nontrivial = windowed >= 2 || stream_kinds >= 2;
